@@ -56,7 +56,11 @@ def generate_manifest_entries(out, topdir):
             dirs.remove(d)
 
         for f in files:
-            if f.startswith('Manifest') or f.startswith('.'):
+            if f.startswith('.'):
+                continue
+            # the Manifest files of the directory being processed
+            # (files merely named alike elsewhere are regular files)
+            if dirpath == topdir and f in ('Manifest', 'Manifest.gz'):
                 continue
             fp = os.path.join(dirpath, f)
             ep = os.path.relpath(fp, topdir)
@@ -111,6 +115,12 @@ def gen_manifest(top_dir):
     else:
         with open(os.path.join(top_dir, 'Manifest'), 'wb') as f:
             f.write(manifest_data)
+        # a compressed Manifest left from the time when the directory
+        # held no ebuild yet
+        try:
+            os.unlink(os.path.join(top_dir, 'Manifest.gz'))
+        except FileNotFoundError:
+            pass
 
 
 if __name__ == '__main__':
